@@ -14,7 +14,8 @@
 
 static int resolve_link(fstree_t *fs, tree_node_t *node)
 {
-	tree_node_t *start = node;
+	tree_node_t *start = node, *marker = node;
+	size_t hops = 0, limit = 1;
 
 	for (;;) {
 		if (!S_ISLNK(node->mode) || !(node->flags & FLAG_LINK_IS_HARD))
@@ -33,6 +34,20 @@ static int resolve_link(fstree_t *fs, tree_node_t *node)
 		if (node == start) {
 			errno = EMLINK;
 			return -1;
+		}
+
+		/* the chain may also run into a cycle that does not contain
+		   the start node; compare against a marker that is moved
+		   forward after 1, 2, 4, ... hops (Brent's algorithm) */
+		if (node == marker) {
+			errno = EMLINK;
+			return -1;
+		}
+
+		if (++hops == limit) {
+			marker = node;
+			limit *= 2;
+			hops = 0;
 		}
 	}
 
